@@ -17,9 +17,10 @@ def _has_sym(a):
 
 
 class Shim:
-    def __init__(self, overrides=None, symbolic_zeros=True):
+    def __init__(self, overrides=None, symbolic_zeros=True, float_object=True):
         self._over = overrides or {}
         self._symz = symbolic_zeros
+        self._float_obj = float_object          # False: only complex arrays become object arrays (float geometry stays numeric)
         la = types.SimpleNamespace()
         for k in dir(_np.linalg):
             if not k.startswith("_"):
@@ -38,7 +39,9 @@ class Shim:
         return getattr(_np, k)
 
     def _dt(self, dtype):
-        if self._symz and dtype in (float, complex, None, _np.float64, _np.complex128):
+        if self._symz and dtype in (complex, _np.complex128):
+            return object
+        if self._symz and self._float_obj and dtype in (float, None, _np.float64):
             return object
         return dtype
 
